@@ -121,6 +121,7 @@ DESCR = {
     "Parse": "`parser/parser.go` + the block grammar of `tags/standard_tags.go`: zipper stack machine, comment/raw modes, errors",
     "Nest": "declarative nesting grammar (the specification the parser is proved against), printer",
     "Value": "`GoVal`: a Go value *with its representation* (int widths, typed slices, arrays, maps, MapSlice, pointers, drops, structs, time); `ToLiquid`; text codec",
+    "Time": "`time.Time` in UTC with whole seconds: the proleptic Gregorian calendar from unix seconds for every integer (`civilOfDays` / `daysOfCivil` over 400-year eras with March-based years, weekday, day of the year, `ISOWeek`, `Broken`), weekday and month names, `values.ParseDate` on the five all-digit layouts and the strings no layout can start on (`parseDate`)",
     "Utf8": "`utf8.DecodeRune`/`DecodeLastRune`/`EncodeRune`, `unicode.IsSpace`, `bytes.TrimLeftFunc/TrimRightFunc`",
     "Unicode": "finite case-mapping table used by upcase/downcase/capitalize",
     "F64": "floats as exact rationals with IEEE-754 round-to-nearest-even (`roundF64`, `roundF32`)",
@@ -129,13 +130,13 @@ DESCR = {
     "Lookup": "`values`: `IndexValue`, `PropertyValue`, `Test`, int conversion for indices, MapSlice search",
     "Eval": "`expressions` evaluator over `Prims` (comparison, contains, filters)",
     "Compare": "`values/compare.go`, `values/predicates.go`: `Equal`, `Less`, `joinKind`, `contains`, operators",
-    "Convert": "`values/convert.go`: conversion to parameter types, array conversion with `ToLiquid` per element",
+    "Convert": "`values/convert.go`: conversion to parameter types (a string to a time through `ParseDate`, a time to a string through `Time.String()`), array conversion with `ToLiquid` per element",
     "Call": "`values/call.go` + `expressions/filters.go`: filter registry signatures, arity/parity errors, default-function parameters (lazy)",
-    "Sprint": "`fmt.Sprint`/`%v` for the admitted kinds, `strconv` shortest float formatting, `writeObject`",
+    "Sprint": "`fmt.Sprint`/`%v` for the admitted kinds, `strconv` shortest float formatting, `time.Format` of a UTC time for the layouts of `writeObject` and `String()` (`appendInt`: every year), `writeObject`",
     "Render": "`render/*.go` + `tags/*.go`: compile to `Node`, interaction tree `Prog` of writer calls, render monad `M`, statuses (break/continue), `wrapError`, if/unless/case, for/tablerow/cycle, assign/capture, include with fuel",
     "TrimWriter": "`render/trimwriter.go` on bytes: `TW.step` with the underlying `Write` calls it issues",
     "TrimGeneric": "the same machine over an arbitrary alphabet (proof vehicle of C13)",
-    "Std": "the standard configuration: `stdPrims`, `stdOut`, filter table Num ++ Str ++ Arr ++ Json, file-system model, canonical result printing",
+    "Std": "the standard configuration: `stdPrims`, `stdOut`, filter table Num ++ Str ++ Arr ++ Json ++ Date (all 48 registered filters), file-system model, canonical result printing",
     "Conc": "interleaving machine over a store with ownership regions (C04)",
     "ConcFacts": "the store facts (`WriteFact.offending`: the statically checked necessary condition of C04's ownership premise) and the call facts (`auditedGlobalCalls`: the five audited read-only package-level variables) over the generated write table",
     "MapIterFacts": "the eight audited map-iteration sites of the library with the reason why the order cannot reach the output (sorted before use / copied into a fresh map / conjunction over all entries); read from the source, not proved (T5, C02)",
@@ -146,6 +147,7 @@ DESCR = {
     "InsertionSort": "Go's `sort.insertionSort` (`sort/zsortinterface.go`) — all of `sort.Sort` on at most 12 elements — loop by loop, for a total and for a partial (panicking / unmodelled) comparator",
     "Filters/Arr": "array filter bodies (compact concat join map reverse sort sort_natural first last uniq): the sorts exact up to 12 elements (insertion sort), a sorted permutation beyond; canonical sort form for results of more than 12 elements",
     "Filters/Json": "`json`, `inspect`, `type`: `encoding/json` marshalling of the value universe (float format switch, HTML-safe string escaping, base64, sorted map keys, structs, pointers, `time.Time`) and `%T`",
+    "Filters/Date": "`date` = `tuesday.Strftime` on a UTC time: the directive regexp as a deterministic scanner (`matchDirective`: flag, width, `E`/`O`, conversion), all of `convert` (46 conversions, `%x` for the other letters), the padding table, flags `- _ 0 ^ #` and colons, `fmt`'s `%d` with blank and zero padding (`fmtNum`), `applyFlags`; widths up to 1024",
     "Heap": "slice memory (C15/C03 no-write clause): `Store` of backing arrays, `SliceRef` arr/off/len/cap, programs `Prog` (read / write / alloc) with the interpreter `run` returning store and WRITE LOG; Go's `index`, element assignment, `reslice`, `make`, `append` (in place into spare capacity, else allocate), `copy`; `values.Convert(·, []any)` (a `[]any` without drops is passed through uncopied) and the bodies of compact concat join map reverse sort sort_natural first last uniq size default at that level; one filter application `stageF`, pipelines `runChain`; driver op `alias`",
     "TokenReSrc": "`parser.formTokenMatcher` as data (`StrExpr`, `TokenReSrc.pattern`: Sprintf/QuoteMeta/Join/range), `regexp.QuoteMeta`, the printer `Re.toGoSyntax` of the model's expressions in Go syntax (T4)",
     "Rex": "driver ops `rex`/`rexs`: decode an expression, print it, match it, answer like `FindStringSubmatchIndex`",
